@@ -14,16 +14,13 @@
    No Mathlib; everything here is executable (the driver runs these very functions). -/
 import LdkModel.Generated.Consts
 import LdkModel.Generated.ChainSyncConsts
+import LdkModel.Model.ChainSyncTypes
+import LdkModel.Generated.ChainSync
 namespace Ldk.ChainSync
 open Ldk
 
-/-- `poll::ValidatedBlockHeader` (block_hash, header.prev_blockhash, height, chainwork) -/
-structure Hdr where
-  hash : Nat
-  parent : Nat
-  height : Nat
-  work : Nat
-deriving DecidableEq, Repr, Inhabited
+-- `Hdr` (poll::ValidatedBlockHeader), `RawHdr`, `RawBlk` are in Model/ChainSyncTypes.lean; every comparison
+-- below is a call into Generated/ChainSync.lean (translated from the Rust text on every check).
 
 abbrev Tree := List Hdr
 
@@ -46,22 +43,32 @@ deriving DecidableEq, Repr
 
 /-! ### block source -/
 
+/-- a request as the source sees it: its index within the poll / start-up sync and what is asked for -/
+inductive Req where
+  | best (k : Nat)
+  | header (k : Nat) (hash : Nat)
+  | block (k : Nat) (hash : Nat)
+deriving DecidableEq, Repr
+
 structure Source where
   tree : Tree
   /-- hash returned by `get_best_block` -/
   best : Nat
-  /-- failure schedule: request index ↦ fails -/
-  fails : Nat → Bool
+  /-- failure schedule: which requests end in `Err` (a source error, or an answer that `Validate` refuses:
+      see `Adv.toSource`, which computes this from ARBITRARY raw answers through the translated Validate layer) -/
+  fails : Req → Bool
   /-- blocks the source does not know ("header not found" / pruned fork) -/
   hidden : Nat → Bool
+  /-- `ChainPoller::network` is `Network::Bitcoin` (check_builds_on then enforces the difficulty rules) -/
+  bitcoin : Bool := false
 
 /-- mirrors BlockSource::get_best_block (request `req`) -/
 def Source.getBestBlock (s : Source) (req : Nat) : Except Err Nat :=
-  if s.fails req then .error .source else .ok s.best
+  if s.fails (.best req) then .error .source else .ok s.best
 
 /-- mirrors BlockSource::get_header followed by `BlockHeaderData::validate(hash)` (request `req`) -/
 def Source.getHeader (s : Source) (req : Nat) (h : Nat) : Except Err Hdr :=
-  if s.fails req then .error .source
+  if s.fails (.header req h) then .error .source
   else if s.hidden h then .error .source
   else match hdrOf s.tree h with
     | some b => .ok b
@@ -69,7 +76,7 @@ def Source.getHeader (s : Source) (req : Nat) (h : Nat) : Except Err Hdr :=
 
 /-- mirrors Poll::fetch_block = BlockSource::get_block followed by `BlockData::validate(hash)` -/
 def Source.getBlock (s : Source) (req : Nat) (b : Hdr) : Except Err Unit :=
-  if s.fails req then .error .source
+  if s.fails (.block req b.hash) then .error .source
   else if s.hidden b.hash then .error .source
   else match hdrOf s.tree b.hash with
     | some _ => .ok ()
@@ -87,18 +94,22 @@ def cacheInsert (c : Cache) (b : Hdr) : Cache := b :: c.filter (fun x => x.hash 
 
 /-- mirrors HeaderCache::block_connected -/
 def cacheBlockConnected (c : Cache) (b : Hdr) : Cache :=
-  (cacheInsert c b).filter (fun x => decide (b.height - HEADER_CACHE_LIMIT ≤ x.height))
+  (cacheInsert c b).filter (fun x => cacheKeeps x (cacheCutoff b))
 
-def maxHeight (c : Cache) : Nat := c.foldl (fun m x => max m x.height) 0
+/-- `self.headers.iter().map(|(_, header)| header.height).max().unwrap_or(..)` -/
+def maxHeight (c : Cache) : Nat :=
+  match c with
+  | [] => diffBestHeightDefault
+  | _ => c.foldl (fun m x => max m x.height) 0
 
 /-- mirrors HeaderCache::insert_during_diff -/
 def cacheInsertDuringDiff (c : Cache) (b : Hdr) : Cache :=
   let c' := cacheInsert c b
-  c'.filter (fun x => decide (maxHeight c' - HEADER_CACHE_LIMIT ≤ x.height))
+  c'.filter (fun x => diffKeeps x (diffCutoff (maxHeight c')))
 
 /-- mirrors HeaderCache::blocks_disconnected -/
 def cacheBlocksDisconnected (c : Cache) (retainOnDisconnect : Bool) (fork : Hdr) : Cache :=
-  if retainOnDisconnect then c else c.filter (fun x => decide (x.height ≤ fork.height))
+  if retainOnDisconnect then c else c.filter (fun x => disconnectKeeps x fork)
 
 /-! ### poller (poll.rs ChainPoller) -/
 
@@ -106,18 +117,16 @@ def cacheBlocksDisconnected (c : Cache) (retainOnDisconnect : Bool) (fork : Hdr)
     next request (= number of requests issued so far in this poll / start-up sync) -/
 abbrev Res (α : Type) := Except (Err × Nat) (α × Nat)
 
-/-- mirrors poll.rs ValidatedBlockHeader::check_builds_on for Network::Regtest (no difficulty rules).
-    The real test `chainwork == previous.chainwork + header.work()` (with `header.work() > 0`) is
-    abstracted to a strict increase of the cumulative work. -/
-def checkBuildsOn (h p : Hdr) : Bool :=
-  h.parent == p.hash && h.height == p.height + 1 && decide (p.work < h.work)
+/-- poll.rs ValidatedBlockHeader::check_builds_on = the translated `checkBuildsOnErr` (prev hash, height + 1,
+    `chainwork == previous.chainwork + header.work()`, and for Network::Bitcoin the difficulty rules) -/
+def checkBuildsOn (bitcoin : Bool) (h p : Hdr) : Bool := (checkBuildsOnErr bitcoin h p).isNone
 
 /-- mirrors poll.rs ChainPoller::look_up_previous_header; returns the header and the next request index -/
 def pollerPrev (s : Source) (req : Nat) (h : Hdr) : Res Hdr :=
-  if h.height = 0 then .error (.genesis, req)
+  if isGenesisHeader h then .error (.genesis, req)
   else match s.getHeader req h.parent with
     | .error e => .error (e, req + 1)
-    | .ok p => if checkBuildsOn h p then .ok (p, req + 1) else .error (.buildsOn, req + 1)
+    | .ok p => if checkBuildsOn s.bitcoin h p then .ok (p, req + 1) else .error (.buildsOn, req + 1)
 
 inductive TipKind where
   | common
@@ -130,11 +139,11 @@ def pollChainTip (s : Source) (req : Nat) (known : Hdr) : Res TipKind :=
   match s.getBestBlock req with
   | .error e => .error (e, req + 1)
   | .ok bh =>
-    if bh == known.hash then .ok (.common, req + 1)
+    if tipIsCommon bh known then .ok (.common, req + 1)
     else match s.getHeader (req + 1) bh with
       | .error e => .error (e, req + 2)
       | .ok tip =>
-        if known.work < tip.work then .ok (.better tip, req + 2) else .ok (.worse tip, req + 2)
+        if tipIsBetter tip known then .ok (.better tip, req + 2) else .ok (.worse tip, req + 2)
 
 /-! ### ChainNotifier (lib.rs) -/
 
@@ -156,12 +165,12 @@ deriving DecidableEq, Repr
 def findDiffF (s : Source) (c : Cache) : Nat → Hdr → Hdr → Nat → Res Diff
   | 0, _, _, req => .error (.fuel, req)
   | n + 1, cur, prev, req =>
-    if cur.hash == prev.hash then .ok (⟨cur, []⟩, req)
+    if fdFound cur prev then .ok (⟨cur, []⟩, req)
     else
-      match (if cur.height ≤ prev.height then lookUpPrev s c req prev else .ok (prev, req)) with
+      match (if fdWalkPrevious cur.height prev.height then lookUpPrev s c req prev else .ok (prev, req)) with
       | .error e => .error e
       | .ok (prev', req1) =>
-        if prev.height ≤ cur.height then
+        if fdWalkCurrent cur.height prev.height then
           match lookUpPrev s c req1 cur with
           | .error e => .error e
           | .ok (cur', req2) =>
@@ -213,7 +222,7 @@ def synchronizeListener (s : Source) (c : Cache) (req : Nat) (new old : Hdr) : S
   match findDiff s c new old req with
   | .error (_, r) => ⟨.errNone, c, r, []⟩
   | .ok (d, req1) =>
-    let disc := decide (d.common ≠ old)
+    let disc := syncDisconnects d.common old
     let c1 := if disc then cacheBlocksDisconnected c false d.common else c
     let r := connectBlocks s d.connected.reverse d.common c1 req1
     let ns := (if disc then [Notif.disconnected d.common.hash d.common.height] else []) ++ r.notifs
@@ -231,7 +240,7 @@ def updateChainTip (s : Source) (cl : Client) (req : Nat) (best : Hdr) : Client 
   let o := synchronizeListener s cl.cache req best cl.tip
   match o.res with
   | .ok => (⟨best, o.cache⟩, true, o.notifs, o.req)
-  | .errAt t => if t.hash != cl.tip.hash then (⟨t, o.cache⟩, true, o.notifs, o.req) else (⟨cl.tip, o.cache⟩, false, o.notifs, o.req)
+  | .errAt t => if partialAdvance t cl.tip then (⟨t, o.cache⟩, true, o.notifs, o.req) else (⟨cl.tip, o.cache⟩, false, o.notifs, o.req)
   | .errNone => (⟨cl.tip, o.cache⟩, false, o.notifs, o.req)
 
 structure PollOut where
@@ -263,7 +272,7 @@ deriving Repr
 def prevCandidates : Nat → List (Option Nat) → List (Nat × Nat)
   | _, [] => []
   | i, none :: r => prevCandidates (i + 1) r
-  | i, some h :: r => (i + 1, h) :: prevCandidates (i + 1) r
+  | i, some h :: r => (locatorHeightDiff i, h) :: prevCandidates (i + 1) r
 
 /-- `(height_diff, hash)` candidates in the order find_difference_from_best_block tries them -/
 def Locator.candidates (l : Locator) : List (Nat × Nat) := (0, l.hash) :: prevCandidates 0 l.prevs
@@ -276,7 +285,7 @@ def resolveLocator (s : Source) (height : Nat) : List (Nat × Nat) → Cache →
     match cacheLookUp c h with
     | some b => .ok ((b, c), req)
     | none =>
-      if height < d then .error (.locatorHeight, req)
+      if (locatorHeight height d).isNone then .error (.locatorHeight, req)
       else match s.getHeader req h with
         | .ok b => .ok ((b, cacheInsertDuringDiff c b), req + 1)
         | .error _ => resolveLocator s height rest c (req + 1)
@@ -308,8 +317,8 @@ def phase1 (s : Source) (best : Hdr) : List Locator → Cache → Nat → List H
     | .error (_, r) => ⟨false, c, r, most, (l :: ls).map (fun _ => (none, []))⟩
     | .ok ((d, c1), req1) =>
       -- header_cache.retain_on_disconnect = true: blocks_disconnected leaves the cache alone
-      let disc := if d.common.hash != l.hash then [Notif.disconnected d.common.hash d.common.height] else []
-      let most' := if most.length < d.connected.length then d.connected else most
+      let disc := if initDisconnects d.common l.hash then [Notif.disconnected d.common.hash d.common.height] else []
+      let most' := if initTakesLonger d.connected most then d.connected else most
       let r := phase1 s best ls (cacheBlocksDisconnected c1 true d.common) req1 most'
       { r with per := (some d.common, disc) :: r.per }
 
@@ -323,7 +332,7 @@ def fetchAll (s : Source) : List Hdr → Nat → Bool × Nat
     ((match s.getBlock req b with | .ok _ => true | .error _ => false) && ok, r)
 
 def connectedFor (lh : Nat) (chunk : List Hdr) : List Notif :=
-  (chunk.filter (fun b => decide (lh < b.height))).map (fun b => Notif.connected b.hash b.height)
+  (chunk.filter (fun b => initDelivers b.height lh)).map (fun b => Notif.connected b.hash b.height)
 
 /-- second loop of synchronize_listeners over `asc` = most_connected_blocks reversed, in batches of
     `k`: a batch is fetched completely, then cached and delivered; a failed fetch returns `Err` before
@@ -370,6 +379,55 @@ def synchronizeListeners (s : Source) (ls : List Locator) : InitOut :=
           | none => [])
         if ok then ⟨.ok (best, c), ns, r⟩ else ⟨.error .source, ns, r⟩
 
+/-! ### an arbitrary (adversarial) source seen through the Validate layer -/
+
+/-- An ARBITRARY block source: any function from requests (index within the poll / start-up sync and the
+    requested hash) to raw answers; `none` = the source answered `Err` (transient or persistent). -/
+structure Adv where
+  best : Nat → Option Nat
+  header : Nat → Nat → Option RawHdr
+  block : Nat → Nat → Option RawBlk
+  bitcoin : Bool := false
+
+/-- BlockSource::get_header followed by the translated `BlockHeaderData::validate(hash)` (PoW, hash binding) -/
+def Adv.getHeader (a : Adv) (req h : Nat) : Except Err Hdr :=
+  match a.header req h with
+  | none => .error .source
+  | some raw => match validateHeader raw h with
+    | none => .error .source
+    | some b => .ok b
+
+/-- Poll::fetch_block: BlockSource::get_block followed by the translated `BlockData::validate(hash)` -/
+def Adv.getBlock (a : Adv) (req : Nat) (h : Nat) : Except Err Unit :=
+  match a.block req h with
+  | none => .error .source
+  | some raw => if validateBlock raw h then .ok () else .error .source
+
+/-- The adversary as a failure-scheduled source over the universe `t` of headers that exist (every
+    PoW-valid header the adversary can ever show is a header of `t`; hashes are collision-free): a request
+    ends in `Err` iff the source errs, or the translated Validate layer refuses the answer, or — the TRUST
+    BOUNDARY, see `Adv.TruthfulOn` — the accepted header is not `t`'s header for that hash, i.e. its CLAIMED
+    height / chainwork are untrue. (`prev_lookup_accepts_only_the_parent` in Props/C20.lean shows that
+    check_builds_on enforces this for every previous-header look-up; for the tip header and the locator
+    look-ups the real code has no such check.) `get_best_block` is request 0 of every operation. -/
+def Adv.toSource (a : Adv) (t : Tree) : Source :=
+  { tree := t, best := (a.best 0).getD 0,
+    fails := fun r => match r with
+      | .best k => (a.best k).isNone || (a.best k != a.best 0)
+      | .header k h => (match a.getHeader k h with
+          | .ok b => hdrOf t h != some b
+          | .error _ => true)
+      | .block k h => (match a.getBlock k h with
+          | .ok _ => (hdrOf t h).isNone
+          | .error _ => true),
+    hidden := fun _ => false, bitcoin := a.bitcoin }
+
+/-- every header the Validate layer accepts from `a` is the universe's header for the requested hash
+    (collision-free hashes + truthful height / chainwork claims) and every accepted block is known -/
+def Adv.TruthfulOn (a : Adv) (t : Tree) : Prop :=
+  (∀ k h b, a.getHeader k h = .ok b → hdrOf t h = some b) ∧
+  (∀ k h, a.getBlock k h = .ok () → (hdrOf t h).isSome)
+
 /-! ### specification vocabulary (used by Props/C20.lean; not by the driver) -/
 
 /-- ancestors of `b` in `t`, `b` first, genesis last (fuel-indexed) -/
@@ -392,7 +450,7 @@ def wfBlock (t : Tree) (b : Hdr) : Bool :=
   (hdrOf t b.hash == some b) &&
   (if b.height = 0 then (hdrOf t b.parent).isNone
    else match hdrOf t b.parent with
-     | some p => p.height + 1 == b.height && decide (p.work < b.work)
+     | some p => p.height + 1 == b.height && b.work == p.work + b.bwork && decide (0 < b.bwork)
      | none => false)
 
 def wfTree (t : Tree) : Bool := t.all (wfBlock t)
@@ -453,8 +511,16 @@ inductive Forall2 {α β : Type} (R : α → β → Prop) : List α → List β 
 def LocatorOk (t : Tree) (l : Locator) (b : Hdr) : Prop :=
   InTree t b ∧ l.hash = b.hash ∧ ∀ d h x, (d, h) ∈ l.candidates → hdrOf t h = some x → x ∈ anc t b
 
-/-- a source that answers every request and knows every block of its tree -/
-def Source.Healthy (s : Source) : Prop := (∀ k, s.fails k = false) ∧ (∀ h, s.hidden h = false)
+/-- the tree obeys the difficulty rules `check_builds_on` enforces for Network::Bitcoin -/
+def diffRulesOk (t : Tree) : Bool :=
+  t.all (fun b => match hdrOf t b.parent with
+    | some p => (checkBuildsOnErr true b p).isNone || (checkBuildsOnErr false b p).isSome
+    | none => true)
+
+/-- a source that answers every request and knows every block of its tree (and, when the poller runs
+    with Network::Bitcoin, whose tree obeys the mainnet difficulty rules, so that honest answers pass) -/
+def Source.Healthy (s : Source) : Prop :=
+  (∀ k, s.fails k = false) ∧ (∀ h, s.hidden h = false) ∧ (s.bitcoin = true → diffRulesOk s.tree = true)
 
 /-- a history of polls of one client; each poll sees its own best tip / failure schedule / hidden set -/
 def runPolls : Client → List Source → Client × List Notif
